@@ -21,6 +21,9 @@ CLAIMS = {
  "C01": ("Model-based generated search: every case is a generated client stream, segmentation and route list whose expected per-handler byte ranges are computed by a reference consumer model; byte equality is required of every recorder, tee branch and echoed stream, through RouteList.Compile on scripted connections, behind real TLS termination and through Server.handle over loopback TCP. Sampled, not exhaustive.",
          "Harness recorder/take handlers and position-coded streams; crypto/tls as the client; the shipped tls, proxy_protocol, throttle, tee, subroute, echo handlers are under test together with Connection/Compile.",
          "property-based testing (rapid) against a reference consumer model"),
+ "C10": ("Generated pool states and selection sequences (rapid, incl. a state machine with state changes between selections) plus an exhaustive sweep of availability vectors for small pools, judged against a reference availability set and the per-policy contracts (earliest, once-per-cycle, IP-stable under departures, fewest connections, membership).",
+         "Upstream/peer state is constructed through an overlay-injected export shim in package l4proxy; random policies are judged on membership only, over repeated draws.",
+         "property-based testing (rapid, stateful) + exhaustive availability vectors; reference-model oracle"),
 }
 NOT_YET = "check not built yet in this session (planned, see DESIGN.md); not claimed until it is"
 
